@@ -2,6 +2,7 @@ CONSTANTS Streams <- Huge
   LenOf <- Lens
   ReadMax = 2048
   MaxReads = 0
+  Fails <- NoFail
   Cuts <- HugeCutsC
   D = 0
 INIT Init
